@@ -14,6 +14,7 @@ import (
 
 	"github.com/Eyevinn/mp4ff/avc"
 	"github.com/Eyevinn/mp4ff/bits"
+	"github.com/Eyevinn/mp4ff/hevc"
 	"github.com/Eyevinn/mp4ff/mp4"
 	"verifharness/hx"
 )
@@ -306,6 +307,13 @@ func execOp(p op, objs map[int]*object, inputs [][]byte) (res opResult) {
 			if err := o.file.Info(&b, "all:1", "", "  "); err != nil {
 				return opResult{class: "err"}
 			}
+			// box-level inspection as well: every top-level box on its own
+			for _, c := range o.file.Children {
+				fmt.Fprintf(&b, "[%s %d]\n", c.Type(), c.Size())
+				if err := c.Info(&b, "", " ", " "); err != nil {
+					return opResult{class: "err"}
+				}
+			}
 			out = b.Bytes()
 		case 'E':
 			var b bytes.Buffer
@@ -402,11 +410,39 @@ func execOp(p op, objs map[int]*object, inputs [][]byte) (res opResult) {
 	return opResult{class: "skip"}
 }
 
+// nalInspect reads a sample through the avc / hevc / sei packages (read-only inspection).
+func nalInspect(data []byte) (res string) {
+	defer func() {
+		if r := recover(); r != nil {
+			res = "panic"
+		}
+	}()
+	var b strings.Builder
+	fmt.Fprint(&b, avc.FindNaluTypes(data), hevc.FindNaluTypes(data))
+	nalus, err := avc.GetNalusFromSample(data)
+	if err != nil {
+		return b.String() + "/notnalus"
+	}
+	for _, n := range nalus {
+		if len(n) > 2 && avc.GetNaluType(n[0]) == avc.NALU_SEI {
+			msgs, err := avc.ParseSEINalu(n, nil)
+			fmt.Fprintf(&b, "/sei:%d:%v", len(msgs), err == nil)
+			for _, m := range msgs {
+				fmt.Fprintf(&b, ":%d", m.Type())
+			}
+		}
+	}
+	return b.String()
+}
+
 func samplesDigest(ss []mp4.FullSample) string {
 	h := sha256.New()
-	for _, s := range ss {
+	for i, s := range ss {
 		fmt.Fprintf(h, "%d/%d/%d/%d/%d/", s.Flags, s.Dur, s.Size, s.CompositionTimeOffset, s.DecodeTime)
 		h.Write(s.Data)
+		if i < 8 {
+			fmt.Fprint(h, nalInspect(s.Data))
+		}
 	}
 	return fmt.Sprintf("n=%d,%s", len(ss), hex.EncodeToString(h.Sum(nil)[:8]))
 }
